@@ -416,6 +416,22 @@ def rule_t5(prog, rep, rid='T5'):
                 if l.get('kind') == 'MemberExpr' and l.get('name') == 'next' and canon(l).endswith('->root->next') \
                         and is_null(children(x)[1]):
                     resetters.add(f.name)
+    # ... transitively: a static helper every path of which calls a resetter is a resetter too
+    changed = True
+    while changed:
+        changed = False
+        for f in prog.funcs_in(UNIT):
+            if f.name in resetters or f.body is None or not f.static:
+                continue
+            if not any(y.get('kind') == 'CallExpr' and prog.callee_name(y) in resetters for y in walk(f.body)):
+                continue
+
+            def calls_resetter(m):
+                return isinstance(m.ast, dict) and m.kind != 'macro' and any(
+                    y.get('kind') == 'CallExpr' and prog.callee_name(y) in resetters for y in walk(m.ast))
+            if all(_path_to(f.cfg, r, calls_resetter) is None or calls_resetter(r) for r in f.cfg.returns() + [p_ for (p_, _l) in f.cfg.exit.preds]):
+                resetters.add(f.name)
+                changed = True
     rep.notes['root_parent_link_resetters'] = sorted(resetters)
     for f in sorted(prog.funcs_in(UNIT), key=lambda x: x.line or 0):
         climbs = []
